@@ -682,6 +682,9 @@ func (r *Runner) doEnv(bctx sdk.Context, ln *Line) {
 		r.blocks++
 		ln.Res = Res{Ack: "ok"}
 		return
+	case "escrowSwap":
+		// some of the swap's output denomination left Noble over channel-0 earlier (escrowed there)
+		msg = &banktypes.MsgSend{FromAddress: w.acct["pool"].String(), ToAddress: w.acct["esc0"].String(), Amount: sdk.NewCoins(sdk.NewCoin("uswap", math.NewInt(5000)))}
 	case "bigdust":
 		// somebody deposits 2^64 base units of the big denom on the orbiter account (the coins are
 		// taken from the escrow, as if they had been transferred in and sent on earlier)
@@ -696,6 +699,9 @@ func (r *Runner) doEnv(bctx sdk.Context, ln *Line) {
 	res, _ := r.msgOn(bctx, msg)
 	r.instr = saved
 	ln.Res = res
+	if in.Op == "escrowSwap" && res.Ack == "ok" {
+		w.app.TransferKeeper.SetTotalEscrowForDenom(bctx, w.app.BankKeeper.GetBalance(bctx, w.acct["esc0"], "uswap"))
+	}
 	if (in.Op == "bigback" || in.Op == "bigdust") && res.Ack == "ok" {
 		// ICS-20's own escrow bookkeeping, as a real outgoing transfer would update it
 		w.app.TransferKeeper.SetTotalEscrowForDenom(bctx, w.app.BankKeeper.GetBalance(bctx, w.acct["esc0"], "ubig"))
